@@ -107,6 +107,31 @@ SRC_SPECS.append(
          methods={'prepare': dict(lean='prepare', kinds=['skip', 'skip'], updates_obj=True)},
          dicts={'all_contrib_dict': dict(key=('contrib.name', 'name'), value=['arr', 'arr2', 'skip'])},
          returns=['arr', 'dict']))
+# SimpleForwardModel.model_full_contrib (wngrid=None): like model_contrib, but every contribution's COMPONENTS are run
+# alone: `for name, __ in contrib.prepare_each(self, native_grid)` is a generator that is SUSPENDED while `path_integral`
+# re-runs.  The generator protocol is explicit: `prepareEach contrib : List (String × ι)` = the (yielded name, state of the
+# contribution object at that yield) pairs, in order — `path_integral` of iteration i reads the `sigma_xsec` the generator
+# published before its i-th yield.  The results go into a list of records per contribution, stored under `contrib.name`
+# (read BEFORE the generator is created: `cname`).
+# What the suspended generators have PUBLISHED in `self.sigma_xsec` at each yield (the array `contrib.contribute` reads when
+# `path_integral` re-runs): the three `prepare_each` translated once more with `publish='self.sigma_xsec'`.
+for _k in ('cia_prepare_each', 'rayleigh_prepare_each', 'absorption_prepare_each'):
+    _sp = dict([x for x in SRC_SPECS if x['lean'] == _k][0])
+    _sp.update(lean=_k + '_published', callname=_k + '_published', publish='self.sigma_xsec')
+    SRC_SPECS.append(_sp)
+SRC_SPECS.append(
+    dict(module='taurex/model/simplemodel.py', cls='SimpleForwardModel', func='model_full_contrib',
+         lean='model_full_contrib', dialect='shaped', params=dict(wngrid='skip', cutoff_grid='skip'),
+         static={'wngrid is not None and cutoff_grid': False},
+         ignore_calls=r'^self\.(debug|info|warning|error|critical|initialize_profiles)\(|^self\._star\.initialize\(',
+         attrs={'self.nativeWavenumberGrid': ('nativeGrid', 'arr')}, dims={'self.nativeWavenumberGrid': ['nW']},
+         objlists={'full_contrib_list': 'contribs'}, obj_assign=['full_contrib_list'],
+         local_objlists={'self.contribution_list': 'contribs'},
+         obj_generators={'contrib.prepare_each(self, native_grid)': dict(lean='prepareEach', obj='contrib',
+                                                                        elts=['str', 'skip'])},
+         obj_strs={'name': 'cname'}, rec_lists={'contrib_res_list': ['str', 'arr', 'arr2', 'skip']},
+         dicts={'result_dict': dict(key=('contrib.name', 'cname'), value_list='contrib_res_list')},
+         returns=['arr', 'dict']))
 
 RULE =('real TransmissionModel, 2-25 layers, 1-5 wavenumbers, 2-4 trace gases (constant/array profiles), CIA pairs '
         'H2-H2, H2-He, H2-<trace gas>, contributions drawn from {Absorption, CIA, Rayleigh, SimpleClouds, FlatMie | '
